@@ -187,8 +187,7 @@ gproof! { fn c10_into_thin_match_accepted() {
 // @h props=C01,C04,C10 fuc=ThinArc::with_arc,Arc::clone,Arc::drop
 gproof! { fn c04_thin_with_arc_callback() {
     let n = any_count();
-    kani::assume(n < isize::MAX as usize);
-    let (t, len, h, buf) = mk_thin_u32(n);
+        let (t, len, h, buf) = mk_thin_u32(n);
     let (b0, c0) = (tbase(&t), tcw(&t));
     let keep: bool = kani::any();
     let seen = t.with_arc(|a| {
@@ -282,8 +281,7 @@ gproof! { fn c11_thin_into_raw_value_addr() {
 
 // @h props=C16 kind=panic site="abort" fuc=ThinArc::clone
 gpanic! { fn c16_thin_clone_overflow_aborts() {
-    let n: usize = kani::any();
-    kani::assume(n > isize::MAX as usize);
+    let n = vrt::overflow_count();
     let (t, len, h, buf) = mk_thin_u32(n);
     let t2 = t.clone();
     core::mem::forget(t);
@@ -292,8 +290,7 @@ gpanic! { fn c16_thin_clone_overflow_aborts() {
 
 // @h props=C16 kind=panic site="abort" fuc=ThinArc::with_arc,Arc::clone note="clone inside with_arc"
 gpanic! { fn c16_clone_inside_thin_with_arc_overflow_aborts() {
-    let n: usize = kani::any();
-    kani::assume(n > isize::MAX as usize);
+    let n = vrt::overflow_count();
     let (t, len, h, buf) = mk_thin_u32(n);
     t.with_arc(|a| { let c = a.clone(); core::mem::forget(c); });
     core::mem::forget(t);
@@ -416,8 +413,7 @@ gproof! { fn c04_thin_with_arc_mut_replace_counts() {
 // @h props=C04,C10,C01 fuc=ThinArc::with_arc_mut,Arc::clone,Arc::count note="inside the mutable borrow the count is what it was; a clone made inside is +1 and still visible afterwards"
 gproof! { fn c04_thin_with_arc_mut_clone_inside() {
     let n = any_count();
-    kani::assume(n < isize::MAX as usize);
-    let (mut t, len, h, buf) = mk_thin_u32(n);
+        let (mut t, len, h, buf) = mk_thin_u32(n);
     let (b0, c0) = (tbase(&t), tcw(&t));
     let keep: bool = kani::any();
     let seen = t.with_arc_mut(|a| {
